@@ -10,7 +10,7 @@ import (
 
 // discoverGuards prints the rejection profile of a function in the format of
 // the rules files, for review and freezing.
-func discoverGuards(p *Program, name string, mode string) error {
+func discoverGuards(p *Program, name string, mode string, track []string) error {
 	fn := p.Func(name)
 	if fn == nil {
 		return fmt.Errorf("cannot resolve %s", name)
@@ -32,6 +32,16 @@ func discoverGuards(p *Program, name string, mode string) error {
 			fmt.Printf(" AVOIDABLE: %s", g.Avoid)
 		}
 		fmt.Println()
+	}
+	if len(track) > 0 {
+		for _, e := range f.Events() {
+			for _, t := range track {
+				if t != "" && strings.Contains(e.Head(), t) {
+					fmt.Printf("  effect %s    # %s\n", effectKey(f, e), p.pos(e.Pos))
+					break
+				}
+			}
+		}
 	}
 	as := f.Accepts()
 	sort.SliceStable(as, func(i, j int) bool { return as[i].Pos < as[j].Pos })
